@@ -234,7 +234,7 @@ var c02Deep = tmplAlphabet{
 
 func runC02(c *Ctx) {
 	r := c.Run
-	r.Rule("rule sets (singles over the deep template alphabet × kinds; unordered pairs incl. same-method pairs and triples over the reduced alphabet) × every permutation of registration order in two shapes (methods of one service / one service per method) and both service-config orders × every instantiation of every template (fills {x,a,7,é,Ж9}, ** filled with 1..2 (thorough 3) segments) under each rule's verb; plus the token-limit boundary; plus histories with removals: every 3-subset (thorough: 4-subset) of an 11-template family sharing one trie node, each template behind its own scripted back-end, registered in every order, one of them dropped, every probe compared with a mux that registered only the rest; distinct = rule sets with at least one dispatched probe")
+	r.Rule("rule sets (singles over the deep template alphabet × kinds; every 4-5 (thorough 6) segment template over a reduced alphabet alone and paired with every template sharing all but its last segment; unordered pairs incl. same-method pairs and triples over the reduced alphabet) × every permutation of registration order in two shapes (methods of one service / one service per method) and both service-config orders × every instantiation of every template (fills {x,a,7,é,Ж9}, ** filled with 1..2 (thorough 3) segments) under each rule's verb; plus the token-limit boundary (1..48 request segments under ** rules and a 31-literal template: whole remainder captured up to 31 segments, refused or whole beyond, never shortened) and literal segments of 62..1000 bytes; plus histories with removals: every 3-subset (thorough: 4-subset) of a 13-member family sharing one trie node (11 single templates, two methods with 3 and 4 bindings below sibling variables), each template behind its own scripted back-end, registered in every order, one of them dropped, every probe compared with a mux that registered only the rest; distinct = rule sets with at least one dispatched probe")
 	r.Assume("zero-segment ** , ':' outside the final verb position, non-convertible captures and literal-vs-patterned-variable precedence are not demanded", "orders in which larking rejects the rule set are excluded from the order comparison (accept/reject is C16)")
 
 	var jobs []c02Job
@@ -249,6 +249,35 @@ func runC02(c *Ctx) {
 	for _, t := range enumTemplates(c02Deep, maxSeg) {
 		for _, k := range kinds {
 			jobs = append(jobs, c02Job{[]c01Rule{{0, k, t.String()}}})
+		}
+	}
+	// long templates (4-5 segments, thorough 6) alone, and every pair of them that differs in the
+	// last segment only (a long shared prefix in the trie), on two methods
+	longMax := 5
+	if c.Thorough() {
+		longMax = 6
+	}
+	byPrefix := map[string][]string{}
+	var prefixes []string
+	for _, t := range longTemplates(longMax) {
+		ts := t.String()
+		jobs = append(jobs, c02Job{[]c01Rule{{0, "get", ts}}})
+		if t.Verb == "" {
+			pre := ts[:strings.LastIndex(ts, "/")]
+			if byPrefix[pre] == nil {
+				prefixes = append(prefixes, pre)
+			}
+			byPrefix[pre] = append(byPrefix[pre], ts)
+		}
+	}
+	nLongPairs := 0
+	for _, pre := range prefixes {
+		g := byPrefix[pre]
+		for i := range g {
+			for j := i + 1; j < len(g); j++ {
+				jobs = append(jobs, c02Job{[]c01Rule{{0, "get", g[i]}, {1, "get", g[j]}}})
+				nLongPairs++
+			}
 		}
 	}
 	nSingles := len(jobs)
@@ -285,7 +314,7 @@ func runC02(c *Ctx) {
 			}
 		}
 	}
-	r.Set("rule_sets", map[string]int{"singles": nSingles, "pairs": nPairs, "triples": len(jobs) - nSingles - nPairs})
+	r.Set("rule_sets", map[string]int{"singles_and_long_prefix_pairs": nSingles, "long_prefix_pairs": nLongPairs, "pairs": nPairs, "triples": len(jobs) - nSingles - nPairs})
 
 	shapeA, err := newRouteSchema("vt", "S", 3, nil)
 	if err != nil {
@@ -458,49 +487,151 @@ func runC02(c *Ctx) {
 }
 
 // c02TokenLimit: paths with up to 31 segments (63 tokens + EOF = larking's documented cap of
-// 64 tokens) must still route through a trailing "**".
+// 64 tokens) must still route through a trailing "**", with the whole remainder captured. Deeper
+// paths (up to 48 segments) may be refused, but are never dispatched with a shortened capture,
+// never reach a rule they do not match, and never panic. Literal segments of 63..200 bytes
+// route like short ones.
 func c02TokenLimit(c *Ctx, s *routeSchema) {
 	r := c.Run
-	for _, tp := range []string{"/**", "/{s=**}", "/v1/{s=**}", "/v1/**:vb"} {
+	fail := func(oracle, tp, p, note string) {
+		r.Violation(report.Violation{Oracle: oracle, Key: fmt.Sprintf("%s %s path-bytes=%d segments=%d", oracle, truncS(tp, 60), len(p), strings.Count(p, "/")), Case: c02Case{Rules: []c01Rule{{0, "get", tp}}, Shape: "A", Verb: "GET", Path: p}, Note: note})
+		r.Outcome("FAIL:" + oracle)
+	}
+	lits := make([]string, 31)
+	for i := range lits {
+		lits[i] = fmt.Sprintf("l%d", i)
+	}
+	lit31 := "/" + strings.Join(lits, "/")
+	for _, tp := range []string{"/**", "/{s=**}", "/v1/{s=**}", "/v1/**:vb", "/v1/{s=**}:vb", lit31, "/" + strings.Join(lits[:15], "/") + "/{s=**}"} {
 		rules := c01Bound([]c01Rule{{0, "get", tp}})
 		m, impl, err := s.newMux(rules, nil)
 		if err != nil {
 			r.Violation(report.Violation{Oracle: "token-limit-register", Key: "token-limit-register " + tp, Case: c02Case{Rules: []c01Rule{{0, "get", tp}}}, Note: err.Error()})
 			continue
 		}
-		for n := 1; n <= 31; n++ {
+		nlit := 0 // leading literal segments of the template
+		for _, sg := range rules[0].T.Segs {
+			if sg.Kind != tmpl.Lit {
+				break
+			}
+			nlit++
+		}
+		prefix := strings.Split(strings.TrimPrefix(tp, "/"), "/")[:nlit]
+		for n := 1; n <= 48; n++ {
+			if n < nlit || n == nlit && nlit < len(rules[0].T.Segs) {
+				continue // a zero-segment ** is not demanded
+			}
 			segs := make([]string, n)
 			for i := range segs {
-				segs[i] = "x"
+				segs[i] = fmt.Sprintf("x%d", i)
 			}
-			if strings.HasPrefix(tp, "/v1") {
-				segs[0] = "v1"
-				if n == 1 {
-					continue
-				}
-			}
+			copy(segs, prefix)
 			p := "/" + strings.Join(segs, "/")
+			tokens := 2*n + 1
 			if rules[0].T.Verb != "" {
-				if n == 31 {
-					continue // the verb adds two tokens
-				}
 				p += ":" + rules[0].T.Verb
+				tokens += 2
 			}
 			impl.reset()
 			res := serveSimple(m, "GET", p, "")
 			r.Eval(1)
 			o := c02Obs1(s, impl, res)
-			if o.panic != "" || o.n != 1 {
-				r.Violation(report.Violation{Oracle: "token-limit", Key: fmt.Sprintf("token-limit %s segments=%d", tp, n), Case: c02Case{Rules: []c01Rule{{0, "get", tp}}, Shape: "A", Verb: "GET", Path: p}, Note: fmt.Sprintf("%d segments under %s -> %s", n, tp, o)})
-				r.Outcome("FAIL:token-limit")
+			ms := rules[0].T.MayMatch(p)
+			if o.panic != "" {
+				fail("panic", tp, p, o.panic)
+				continue
+			}
+			if len(ms) == 0 {
+				if o.n != 0 {
+					fail("token-limit-misrouted", tp, p, fmt.Sprintf("%d segments do not match %s but reached %s with %s", n, truncS(tp, 60), o.method, truncS(o.msg, 200)))
+				} else {
+					r.Outcome("refused-no-match")
+				}
+				continue
+			}
+			if o.n == 0 {
+				if tokens <= 64 {
+					fail("token-limit", tp, p, fmt.Sprintf("%d segments (%d tokens) under %s -> %s", n, tokens, truncS(tp, 60), o))
+				} else {
+					r.Outcome("refused-beyond-token-limit")
+				}
+				continue
+			}
+			ok := false
+			for _, caps := range ms {
+				if want, cok := s.expectedFromCapture(caps); cok && proto.Equal(want, impl.req) {
+					ok = true
+				}
+			}
+			if !ok {
+				fail("token-limit-capture", tp, p, fmt.Sprintf("%d segments under %s dispatched with {%s}: not the whole remainder", n, truncS(tp, 60), truncS(o.msg, 300)))
 			} else {
 				r.Outcome("dispatched")
 			}
 		}
 	}
+	// long literal segments: alone, beside a variable sibling, as a prefix of a longer request
+	// segment, with a verb; every probe is judged by the reference matcher
+	for _, n := range []int{62, 63, 64, 65, 127, 128, 200, 1000} {
+		L := strings.Repeat("q", n)
+		set := []c01Rule{{0, "get", "/" + L}, {1, "get", "/{s}"}, {2, "get", "/w/" + L + ":vb"}}
+		rules := c01Bound(set)
+		m, impl, err := s.newMux(rules, nil)
+		if err != nil {
+			fail("long-literal-register", set[0].Path, "", err.Error())
+			continue
+		}
+		for _, p := range []string{"/" + L, "/" + L + "q", "/" + L[:n-1], "/" + L[:n-1] + "r", "/w/" + L + ":vb", "/w/" + L + "q:vb", "/w/" + L, "/w/" + L[:n-1] + ":vb"} {
+			impl.reset()
+			res := serveSimple(m, "GET", p, "")
+			r.Eval(1)
+			o := c02Obs1(s, impl, res)
+			oracle, note := c02Judge(s, rules, "GET", p, c02GenBy(rules, "GET", p), o)
+			if oracle != "" {
+				fail("long-literal-"+oracle, set[0].Path, p, note)
+			} else {
+				r.Outcome("long-literal-ok")
+			}
+		}
+	}
+}
+
+// c02GenBy lists the rules whose template matches path (the probes here are hand-made, not
+// instantiated from one rule).
+func c02GenBy(rules []boundRule, verb, path string) []int {
+	var out []int
+	for i, br := range rules {
+		if len(br.T.MayMatch(path)) > 0 {
+			out = append(out, i)
+		}
+	}
+	return out
+}
+
+// replayTokenLimit re-runs the (deterministic, small) depth-and-length family and reports whether
+// the recorded oracle still fires.
+func replayTokenLimit(c *Ctx, id string, v report.Violation) bool {
+	if !strings.Contains(v.Key, "path-bytes=") && !strings.HasPrefix(v.Oracle, "token-limit") && !strings.HasPrefix(v.Oracle, "long-literal") {
+		return false
+	}
+	sub := *c
+	sub.Run = report.NewRun(id, "quick", 0, "exploration")
+	schema, err := newRouteSchema("vt", "S", 3, nil)
+	if err != nil {
+		panic(err)
+	}
+	c02TokenLimit(&sub, schema)
+	fmt.Printf("replay: depth-and-length family re-run -> %d violations\n", sub.Run.NumViolations())
+	if sub.Run.NumViolations() > 0 {
+		c.Run.Violation(report.Violation{Oracle: v.Oracle, Key: v.Key, Case: v.Case, Note: "still violated"})
+	}
+	return true
 }
 
 func replayC02(c *Ctx, v report.Violation) {
+	if replayTokenLimit(c, "C02", v) {
+		return
+	}
 	if strings.Contains(v.Key, "after-drop") {
 		sub := *c
 		sub.Run = report.NewRun("C02", "quick", 0, "exploration")
